@@ -56,9 +56,34 @@ def generate_early_removal(rng):
     return {"world": env, "ops": ops, "mutations": [], "judge": {"v": rng.random() < 0.3, "i": []}, "early_removal": True}
 
 
+def generate_restored(rng):
+    """a file is altered (other size), the alteration is found and recorded by a create (exit 11), then the original
+    bytes come back: the tree equals the sealed one again and everything accepts it"""
+    env = gen.gen_env(rng)
+    tree = gen.gen_tree(rng, max_entries=6, max_depth=2, hostile=0.1, min_files=2, unique=True)
+    env["tree"] = tree
+    fm = gen.fmt_args(gen.pick_formats(rng, 1, 2))
+    f = rng.choice(gen.tree_files(tree))
+    ops = [scen.cmd("create", "@R", *fm), scen.gen_advance(rng)]
+    k = rng.randrange(3)
+    if k == 0:
+        ops.append({"op": "append", "path": f, "c": gen.unique_content(rng, 11), "fault": "append"})
+    elif k == 1:
+        ops.append({"op": "truncate", "path": f, "size": 3, "fault": "truncate"})
+    else:
+        ops.append({"op": "rewrite", "path": f, "seed": rng.getrandbits(20), "fault": "overwrite_same_size"})
+    ops += [scen.cmd("create", "@R", *fm), scen.gen_advance(rng),
+            {"op": "write", "path": f, "c": tree[f]["c"], "m": tree[f].get("m"), "fault": "restore_content"}]
+    if tree[f].get("m") is None:
+        del ops[-1]["m"]
+    return {"world": env, "ops": ops, "mutations": [], "judge": {"v": rng.random() < 0.3, "i": []}, "restored": True}
+
+
 def generate(rng, tier):
     if rng.random() < 0.05:
         return generate_early_removal(rng)
+    if rng.random() < 0.05:
+        return generate_restored(rng)
     env = gen.gen_env(rng)
     tree = gen.gen_tree(rng, max_entries=9, max_depth=3, hostile=0.2, min_files=1)
     pats = []
@@ -189,7 +214,7 @@ def execute(sc, ctx):
     w = core.World(sc["world"], ctx.subdir("main"))
     results = scen.run_ops(w, sc["ops"], ctx)
     ctx.absorb_world(w)
-    if not scen.setup_ok(results, allowed=(0, 10) if sc.get("early_removal") else (0,)):
+    if not scen.setup_ok(results, allowed=(0, 10) if sc.get("early_removal") else (0, 11) if sc.get("restored") else (0,)):
         ctx.probe("setup_failed_na")
         return
     hv = observe.HistoryView(w.root)
